@@ -61,6 +61,11 @@ func (c12Sim) Gen(prop, tier string, r *rand.Rand) interface{} {
 		return c
 	}
 	rels := []string{"top.wsp", "grp/it0/a.wsp", "grp/it0/b.wsp", "grp/it1/a.wsp", "grp/it1/c.wsp", "x y/sp ace.wsp", "p+q/cpu+1&2=3.wsp"}
+	// a directory and a file whose names are drawn from characters that are
+	// legal in file names but special somewhere between a command line, a URL,
+	// a query string and a path (no glob meta characters, no line breaks)
+	oddDir, oddFile := oddName(r), oddName(r)+".wsp"
+	rels = append(rels, oddDir+"/"+oddFile)
 	for _, rel := range rels {
 		if chance(r, 0.85) {
 			c.Files = append(c.Files, WFile{Base: "src", Rel: rel, Layout: l, Fills: genFills(r, l, 1, 0.7), Link: chance(r, 0.08)})
@@ -84,7 +89,7 @@ func (c12Sim) Gen(prop, tier string, r *rand.Rand) interface{} {
 	}
 	n := len(l.Archs)
 	ncmd := int(between(r, 2, 6))
-	fileChoices := append(append([]string{}, rels...), "missing.wsp", "grp/it0/none.wsp", "nodir/a.wsp", "p+q/cpu+1&2=3.wsp")
+	fileChoices := append(append([]string{}, rels...), "missing.wsp", "grp/it0/none.wsp", "nodir/a.wsp", "p+q/cpu+1&2=3.wsp", oddDir+"/"+oddFile, oddDir+"/"+oddFile)
 	for i := 0; i < ncmd; i++ {
 		cm := Cmd{Archive: genArchiveSel(r, n), NoHeader: chance(r, 0.3), ViaParse: chance(r, 0.2)}
 		if chance(r, 0.05) {
@@ -102,9 +107,16 @@ func (c12Sim) Gen(prop, tier string, r *rand.Rand) interface{} {
 			cm.Kind = "sum"
 			cm.Item = pick(r, "grp/it*", "grp/it0", "grp/*", "nomatch*", "grp/it1", "*", "x*", "p+q", "p+*")
 			cm.Src = pick(r, "*.wsp", "a.wsp", "zz*.wsp", "[ab].wsp", "cpu+*.wsp", "cpu+1&2=3.wsp")
+			if chance(r, 0.12) {
+				cm.Item = pick(r, oddDir, oddDir[:1]+"*")
+				cm.Src = pick(r, "*.wsp", oddFile, oddFile[:1]+"*.wsp")
+			}
 		case 5, 6:
 			cm.Kind = "diff"
 			cm.Src = pick(r, "top.wsp", "grp/it0/a.wsp", "grp/it*/a.wsp", "grp/it0/*.wsp", "missing.wsp", "none*/x.wsp", "*.wsp", "*/*.wsp", "x*/*.wsp", "p+q/cpu+1&2=3.wsp", "p+*/*.wsp")
+			if chance(r, 0.12) {
+				cm.Src = pick(r, oddDir+"/"+oddFile, oddDir+"/*.wsp", oddDir[:1]+"*/"+oddFile[:1]+"*.wsp")
+			}
 			if chance(r, 0.3) {
 				// both bases are the served tree: two requests overlap inside one command
 				cm.DstIsSrc = true
@@ -118,6 +130,9 @@ func (c12Sim) Gen(prop, tier string, r *rand.Rand) interface{} {
 			cm.Create = l
 			cm.CopyNaN = chance(r, 0.5)
 			cm.Src = pick(r, "top.wsp", "grp/it0/a.wsp", "grp/it*/a.wsp", "grp/it1/*.wsp", "missing.wsp", "none*/x.wsp", "x*/*.wsp")
+			if chance(r, 0.1) {
+				cm.Src = pick(r, oddDir+"/"+oddFile, oddDir+"/*.wsp")
+			}
 		}
 		genWindow(r, l, &cm)
 		c.Cmds = append(c.Cmds, cm)
@@ -414,4 +429,26 @@ func diffSnippet(a, b string) string {
 		end = len(a)
 	}
 	return a[start:end]
+}
+
+// oddName draws a file-name component from characters that need care in a
+// URL, a query string or a path. It never yields ".", "..", a leading "-"
+// (which a flag parser would take for a flag), a glob meta character or a
+// line break.
+func oddName(r *rand.Rand) string {
+	parts := []string{"+", "&", "=", ".", "..", "%", "#", ";", ",", ":", "@", "$", "~", "'", "(", ")", "!", " ", "-", "%20", "%2F", "%2f..", "a", "b", "7", "\u00e9"}
+	for {
+		n := int(between(r, 2, 5))
+		s := pick(r, "a", "m", "z", "0")
+		if chance(r, 0.3) {
+			s = ""
+		}
+		for i := 0; i < n; i++ {
+			s += parts[r.IntN(len(parts))]
+		}
+		if s == "." || s == ".." || s[0] == '-' || s[0] == ' ' || s[len(s)-1] == ' ' {
+			continue
+		}
+		return s
+	}
 }
